@@ -1154,6 +1154,13 @@ def run(ck):
         ra = F(rng.randint(0, 6000), 10)
         rb = ra + F(rng.randint(-60, 60), rng.choice([1, 2, 10])) if rng.random() < 0.6 else F(rng.randint(0, 6000), 10)
         wa, wb, wa2, wb2 = pick_writing(dk), pick_writing(dk), pick_writing(dk), pick_writing(dk)
+        if rng.random() < 0.3:
+            # exact-zero MAGNITUDES: 0 kelvin, 0 degC (= 273.15 K), 0 degF ... on either side — where __eq__'s
+            # both-zero shortcut decides; the other variant writes the same two quantities in other units
+            def zero_root(w_):
+                return F(0) if w_[0] == "M" else w_[1][2] * w_[1][3]
+            ra = zero_root(wa)
+            rb = zero_root(wb) if rng.random() < 0.8 else ra
         try:
             a, b, a2, b2 = write_abs(ra, wa), write_abs(rb, wb), write_abs(ra, wa2), write_abs(rb, wb2)
         except Skip:
@@ -1180,6 +1187,26 @@ def run(ck):
                          f"{show_spec(x)} {name} {show_spec(y)} is {o[1]}, but the same two quantities written as {show_spec(a2 if x is a else a)} , "
                          f"{show_spec(b2 if y is b else b)} (root values {ra} , {rb}) give {truth[1]}",
                          {"kind": "cmp-offset", "op": name, "a": show_spec(x), "b": show_spec(y), "root_values": [str(ra), str(rb)], "offset_units": names})
+            if name == "eq":
+                # symmetry: a == b  <=>  b == a; and the same answers with ndarray magnitudes (all elements alike)
+                o3 = go2(b, a)
+                if o3 != o1:
+                    fail("reflected-agree:eq:offset-unit", f"{show_spec(a)} == {show_spec(b)} is {o1[1]} but {show_spec(b)} == {show_spec(a)} is {o3[1]} "
+                         f"(root values {ra} , {rb})", {"kind": "cmp-offset", "op": "eq", "a": show_spec(a), "b": show_spec(b), "root_values": [str(ra), str(rb)]})
+                if i % 3 == 0:
+                    for (x, y) in ((a, b), (b, a), (a2, b2)):
+                        try:
+                            X = Q(arr([x[1], x[1]]), regk.mkuc(ureg, x[2]))
+                            Y = Q(arr([y[1], y[1]]), regk.mkuc(ureg, y[2])) if rng.random() < 0.5 else W.mk(y)
+                            sx, sy = snap(X), snap(Y)
+                            r_ = X == Y
+                            oa = ("ok", tuple(bool(v_) for v_ in np.ravel(np.asarray(r_))))
+                        except Exception as e:      # noqa: BLE001
+                            oa = ("err", errclass(e))
+                        if oa != ("ok", (truth[1], truth[1])) or not (snap_eq(sx, snap(X)) and snap_eq(sy, snap(Y))):
+                            fail("cov:eq:offset-unit:ndarray", f"ndarray [{x[1]}, {x[1]}] {dict(x[2])} == {show_spec(y)} gives {oa} (operands unchanged: "
+                                 f"{snap_eq(sx, snap(X)) and snap_eq(sy, snap(Y))}), root values {ra} , {rb} say {truth[1]}",
+                                 {"kind": "cmp-offset", "op": "eq-ndarray", "a": show_spec(x), "b": show_spec(y), "root_values": [str(ra), str(rb)]})
             if name != "eq":
                 # reflected agreement: a < b  <=>  b > a
                 sw = {"lt": "gt", "le": "ge", "gt": "lt", "ge": "le"}[name]
